@@ -3,7 +3,7 @@ SPEC = {
     "id": "C13",
     "coq_targets": ["theories/Network/Props_C13.vo", "theories/Network/Findings.vo", "theories/Network/Cases.vo"],
     "props": "theories/Network/Props_C13.v",
-    "harness": [{"bin": "h_network", "n": {"quick": 480, "thorough": 6000}, "args": ["--mode", "c13"],
+    "harness": [{"bin": "h_network", "n": {"quick": 900, "thorough": 6400}, "args": ["--mode", "c13"],
                  "known_bits": {16: "C13-shortcut-rejected", 32: "C13-peering-unsupported", 64: "C13-peer-link-segment-change", 128: "C13-onehop-unchecked"}}],
     "shard_eval": "coqtop",
     "rule": "pocketscion topologies (directed shortcut/peering/on-path/multi-core/two-ISD shapes, multi-ISD shapes with AS numbers repeated across ISDs, sampled small DAG family with permuted interface numbering, random up to 12 [20] ASes); every case = topology + packet + clock + injection point; packets are offered paths, reverses of arrived packets, lifetime cases (an offered path minted anew with a different timestamp per segment and ExpTime from {0,1,2,63,127,254,255,random}; clock at the last second of the lifetime by the specification formula ts + floor((ExpTime+1)*337.5 s), one second before and after, and around the youngest timestamp; oracle: arrives iff inside Spec.spec_time_ok for every hop field), and mutated ones (single-field corruptions, spliced/recombined authentic hop fields, link down, clock around timestamp/expiry, wrong ingress point, mid-path injection, pointers, destination; per topology attacker-spliced segment changes from authentic hop fields for every realizable ordered pair of arrival/departure link types, core->core first; >64 hop fields at CurrHF 63; one-hop paths); non-trivial = at least 2 hop fields; distinct by full case text",
